@@ -133,10 +133,19 @@ func genC09Row(rng *rand.Rand, t TableSpec) Row {
 }
 
 type mapperOut struct {
-	Row     *struct{ Ok Row `json:"ok"`; Err string `json:"err"` }       `json:"row"`
-	JSON    json.RawMessage                                             `json:"json"`
-	Back    *struct{ Ok *ModelJ `json:"ok"`; Err string `json:"err"` } `json:"back"`
-	Created *struct{ Ok *ModelJ `json:"ok"`; Err string `json:"err"` } `json:"created"`
+	Row *struct {
+		Ok  Row    `json:"ok"`
+		Err string `json:"err"`
+	} `json:"row"`
+	JSON json.RawMessage `json:"json"`
+	Back *struct {
+		Ok  *ModelJ `json:"ok"`
+		Err string  `json:"err"`
+	} `json:"back"`
+	Created *struct {
+		Ok  *ModelJ `json:"ok"`
+		Err string  `json:"err"`
+	} `json:"created"`
 }
 
 func ovsRowAsRow(r ovsdb.Row) Row {
